@@ -44,3 +44,31 @@ Theorem C09_verdicts fsub cr sh sl dh dl :
   fst (diff_core fsub cr sh sl dh dl) = StErr.
 Proof. exact (diff_core_status fsub cr sh sl dh dl). Qed.
 Print Assumptions C09_verdicts.
+
+(** ** glob mode, missing files, unequal layouts, and what a listed slot prints *)
+Theorem C09_glob_every_file_compared_one_difference_decides jobs :
+  Forall (fun j => fst j = StOk \/ fst j = StDiff) jobs ->
+  fst (run_diffs jobs) = (if existsb is_diff jobs then StDiff else StOk) /\ snd (run_diffs jobs) = map snd jobs.
+Proof. exact (run_diffs_all_compared jobs). Qed.
+Print Assumptions C09_glob_every_file_compared_one_difference_decides.
+
+Theorem C09_missing_file_is_a_reported_difference fsub cr h l :
+  diff_two fsub cr RdNotExist (RdOk h l) = (StDiff, [RErrMissing 0]) /\
+  diff_two fsub cr (RdOk h l) RdNotExist = (StDiff, [RErrMissing 1]) /\
+  fst (diff_two fsub cr RdNotExist RdNotExist) = StDiff.
+Proof. exact (diff_two_missing fsub cr h l). Qed.
+Print Assumptions C09_missing_file_is_a_reported_difference.
+
+Theorem C09_unequal_layouts_are_an_error fsub cr sh sl dh dl :
+  layout_eqb (layout_of_arcs (hd_arcs sh)) (layout_of_arcs (hd_arcs dh)) = false ->
+  diff_core fsub cr sh sl dh dl = (StErr, []).
+Proof. exact (diff_core_layout_mismatch fsub cr sh sl dh dl). Qed.
+Print Assumptions C09_unequal_layouts_are_an_error.
+
+Theorem C09_listed_slot_prints_both_values_and_difference fsub i sp dp rs rd :
+  length sp = length dp ->
+  diff_records_from fsub i (sp :: rs) (dp :: rd) =
+  map (fun pq => RDiff i (p_time (fst pq)) (p_val (fst pq)) (p_val (snd pq)) (vdiff fsub (p_val (snd pq)) (p_val (fst pq)))) (combine sp dp)
+  ++ diff_records_from fsub (i + 1) rs rd.
+Proof. exact (diff_records_of_archive fsub i sp dp rs rd). Qed.
+Print Assumptions C09_listed_slot_prints_both_values_and_difference.
